@@ -890,3 +890,167 @@ pub fn replay<S: System>(sys: &S, steps: &[String]) -> Result<Vec<(String, Strin
     rt::hist_idle();
     Ok(found)
 }
+
+/// Drive a finite family of deterministic histories through the same step / oracle pipeline as
+/// the search (no state merging: every history is executed once, every prefix state is checked).
+pub fn run_histories<S: System>(sys: &S, hists: &[Vec<String>], threads: usize) -> Report {
+    let t0 = Instant::now();
+    let next = AtomicUsize::new(0);
+    struct Out {
+        fps: HashSet<u128>,
+        transitions: u64,
+        nontrivial: u64,
+        evals: u64,
+        counters: HashMap<&'static str, u64>,
+        viols: HashMap<(String, String), (Violation, u64)>,
+        err: Option<String>,
+    }
+    let outs: Vec<Out> = std::thread::scope(|sc| {
+        let hs: Vec<_> = (0..threads)
+            .map(|w| {
+                let next = &next;
+                sc.spawn(move || {
+                    rt::set_worker(w);
+                    let mut o = Out { fps: HashSet::new(), transitions: 0, nontrivial: 0, evals: 0, counters: HashMap::new(), viols: HashMap::new(), err: None };
+                    let mut cx = Cx::new();
+                    let mut buf = vec![];
+                    loop {
+                        let i = next.fetch_add(1, Ordering::Relaxed);
+                        if i >= hists.len() {
+                            break;
+                        }
+                        let mut steps = vec![];
+                        for s in &hists[i] {
+                            match sys.parse_step(s) {
+                                Some(st) => steps.push(st),
+                                None => {
+                                    o.err = Some(format!("cannot parse step {s:?}"));
+                                    return o;
+                                }
+                            }
+                        }
+                        rt::hist_reset();
+                        let mut file = |cx: &mut Cx, cur: &[Step], o: &mut Out| {
+                            let last = cur.last().map(|s| sys.fmt_step(*s)).unwrap_or_else(|| "new".into());
+                            for v in cx.viols.drain(..) {
+                                let sig = format!("{}/{}/{}", sys.name(), op_kind(&last), v.tag);
+                                let key = (v.prop.to_string(), sig.clone());
+                                let nv = Violation { prop: v.prop.to_string(), sig, msg: v.msg, hist: cur.to_vec(), count: 1, replay: String::new() };
+                                match o.viols.get_mut(&key) {
+                                    Some((old, c)) => {
+                                        *c += 1;
+                                        if nv.hist.len() < old.hist.len() {
+                                            *old = nv;
+                                        }
+                                    }
+                                    None => {
+                                        o.viols.insert(key, (nv, 1));
+                                    }
+                                }
+                            }
+                        };
+                        let Some(mut obj) = sys.fresh(&mut cx) else {
+                            file(&mut cx, &[], &mut o);
+                            continue;
+                        };
+                        let mut ok = true;
+                        for (k, &st) in steps.iter().enumerate() {
+                            rt::hist_push(st.enc());
+                            sys.step(&mut obj, st, &mut cx);
+                            o.transitions += 1;
+                            if cx.viols.is_empty() && !cx.halt {
+                                rt::hist_push(OBSERVE_MARK);
+                                sys.check_state(&obj, &mut cx);
+                                cx.classes.clear();
+                            }
+                            if !cx.viols.is_empty() || cx.halt {
+                                cx.halt = false;
+                                file(&mut cx, &steps[..=k], &mut o);
+                                ok = false;
+                                break;
+                            }
+                            buf.clear();
+                            sys.canon(&obj, &mut buf);
+                            if o.fps.insert(fingerprint(&buf)) && sys.nontrivial(&obj) {
+                                o.nontrivial += 1;
+                            }
+                        }
+                        if ok {
+                            sys.arrival(&steps, &mut cx);
+                            if !cx.viols.is_empty() {
+                                file(&mut cx, &steps, &mut o);
+                            }
+                            cx.halt = false;
+                        }
+                    }
+                    rt::hist_idle();
+                    o.evals = cx.evals;
+                    o.counters = std::mem::take(&mut cx.counters);
+                    o
+                })
+            })
+            .collect();
+        hs.into_iter().map(|h| h.join().expect("family worker panicked (machinery error)")).collect()
+    });
+    let mut rep = Report {
+        system: sys.name(),
+        states: 0,
+        transitions: 0,
+        injections: 0,
+        replays_validated: 0,
+        levels: vec![],
+        nontrivial: 0,
+        exhaustive: true,
+        cap: String::new(),
+        violations: vec![],
+        counters: BTreeMap::new(),
+        classes: BTreeMap::new(),
+        samples: vec![],
+        evals: 0,
+        wall_s: 0.0,
+        machinery_error: None,
+    };
+    let mut fps: HashSet<u128> = HashSet::new();
+    let mut all: HashMap<(String, String), (Violation, u64)> = HashMap::new();
+    for o in outs {
+        fps.extend(o.fps);
+        rep.transitions += o.transitions;
+        rep.nontrivial += o.nontrivial;
+        rep.evals += o.evals;
+        for (k, v) in o.counters {
+            *rep.counters.entry(k.to_string()).or_insert(0) += v;
+        }
+        if o.err.is_some() {
+            rep.machinery_error = o.err;
+        }
+        for (k, (v, c)) in o.viols {
+            match all.get_mut(&k) {
+                Some((old, oc)) => {
+                    *oc += c;
+                    if v.hist.len() < old.hist.len() {
+                        *old = v;
+                    }
+                }
+                None => {
+                    all.insert(k, (v, c));
+                }
+            }
+        }
+    }
+    rep.states = fps.len() as u64;
+    rep.counters.insert("histories".into(), hists.len() as u64);
+    let mut vs: Vec<Violation> = all.into_iter().map(|(_, (mut v, c))| { v.count = c; v }).collect();
+    vs.sort_by(|a, b| (a.hist.len(), &a.sig).cmp(&(b.hist.len(), &b.sig)));
+    for v in vs.iter_mut() {
+        let hs: Vec<String> = v.hist.iter().map(|s| sys.fmt_step(*s)).collect();
+        v.replay = rt::write_replay(&v.prop, &v.sig, &v.msg, &hs, "");
+    }
+    rep.exhaustive = vs.is_empty();
+    rep.violations = vs;
+    for h in hists.iter().take(1).chain(hists.iter().skip(hists.len() / 2).take(1)) {
+        let short: Vec<String> = if h.len() > 24 { h[..12].iter().cloned().chain(std::iter::once(format!("… {} more steps …", h.len() - 18))).chain(h[h.len() - 6..].iter().cloned()).collect() } else { h.clone() };
+        rep.samples.push(json::arr_str(&short));
+    }
+    rep.wall_s = t0.elapsed().as_secs_f64();
+    rep
+}
